@@ -641,6 +641,55 @@ theorem run_meets_streamResponseOK (canon : String → String) (cfg : Cfg) (q : 
 
 end stream
 
+/-! ### `effective_limit` over update histories -/
+
+/-- Histories compose: what happens after a prefix depends on the prefix only through the spec it leaves in force. -/
+theorem muxHistory_append (dflt : Int) (cur : Int × Int) (pre ops : List MuxOp) :
+    muxHistory dflt cur (pre ++ ops) = muxHistory dflt cur pre ++ muxHistory dflt (specAfter cur pre) ops := by
+  induction pre generalizing cur with
+  | nil => rfl
+  | cons o t ih =>
+    cases o with
+    | reload p s => simp only [List.cons_append, muxHistory, specAfter]; exact ih (p, s)
+    | request x => simp only [List.cons_append, muxHistory, specAfter, ih cur, List.cons_append]
+
+/-- **The limit applied to a request is the one of the spec in force when it arrives** — whatever updates came
+before (only the server level changed, nothing changed, rules changed too, any number of them), the request right
+after a history `pre` is served with `Spec.limitInForce` of the *latest* spec: over the limit ⇒ 413 unhandled, within
+⇒ handled, negative ⇒ streamed. -/
+theorem effective_limit_over_reload_histories (dflt : Int) (init : Int × Int) (pre : List MuxOp) (x : Src) (rest : List MuxOp) :
+    (muxHistory dflt init (pre ++ .request x :: rest))[(muxHistory dflt init pre).length]? =
+      some (serve dflt (specAfter init pre).1 (specAfter init pre).2 x) ∧
+    Spec.requestOK (Spec.limitInForce dflt (specAfter init pre).1 (specAfter init pre).2) x
+      (serve dflt (specAfter init pre).1 (specAfter init pre).2 x).status
+      (serve dflt (specAfter init pre).1 (specAfter init pre).2 x).handled = true := by
+  refine ⟨?_, serve_meets_spec _ _ _ _⟩
+  rw [muxHistory_append]
+  simp [muxHistory]
+
+/-- In particular an update of the server level alone takes effect for the very next request. -/
+theorem server_level_update_takes_effect (dflt : Int) (init : Int × Int) (pre : List MuxOp) (pathL serverL : Int) (x : Src) :
+    muxHistory dflt init (pre ++ [.reload pathL serverL, .request x]) =
+      muxHistory dflt init pre ++ [serve dflt pathL serverL x] := by
+  rw [muxHistory_append]; rfl
+
+/-- Facts behind "the limits are read from the current spec at request time": the only place that writes a path's
+`clientMaxBodySize` is `newMuxPath` (from the path's own spec value), `reload` builds every path through it and
+publishes an instance carrying the new spec (`spec: spec`); the read side is `serve_regenerated_from_source`
+(`route.path.clientMaxBodySize`, then `mi.spec.ClientMaxBodySize`). -/
+theorem reload_facts :
+    Gen.FactsC07.pathLimitWrittenOnlyByNewMuxPath = true ∧ Gen.FactsC07.reloadPublishesNewSpec = true := ⟨rfl, rfl⟩
+
+/-- The seeded defect C07-m4 in the model: limit 64 → 16 by an update that leaves the rules alone; a 17-byte body
+is refused by the code (413) but accepted with the stale table; 16 → -1: a 100 000-byte body streams, but is
+refused with the stale table. -/
+example :
+    muxHistory 4194304 (0, 64) [.reload 0 16, .request ⟨17, 17⟩] = [⟨413, false, .tooLarge⟩] ∧
+    muxHistoryStale 4194304 64 [(false, .reload 0 16), (false, .request ⟨17, 17⟩)] = [⟨0, true, .ok 17⟩] ∧
+    muxHistory 4194304 (0, 16) [.reload 0 (-1), .request ⟨-1, 100000⟩] = [⟨0, true, .stream⟩] ∧
+    muxHistoryStale 4194304 16 [(false, .reload 0 (-1)), (false, .request ⟨-1, 100000⟩)] = [⟨413, false, .tooLarge⟩] := by
+  decide
+
 /-! ### Non-vacuity -/
 
 private def exOpsS : Proxy.BodyOps (List Nat) :=
